@@ -62,3 +62,42 @@ Proof.
   intros Hn P. rewrite (seq_attr_entries_spec pf skip e a Hn) in P.
   apply (sattrs_attr_perm e _ a m); [reflexivity|exact P].
 Qed.
+
+(* ---------------- the full domain is refuted by the code ---------------- *)
+Definition xn (x : string) : xname := {| xspace := []; xlocal := s x |}.
+(* <a>text<b/></a> *)
+Definition witness_text_before_child : node :=
+  NElem (xn "a") [] (s "text") [NElem (xn "b") [] [] []].
+
+Lemma roundtrip_refuted :
+  exists d, dom04 (seq_o true) d = true /\
+    exists m, seq_decode (fun _ => None) (fun _ => false) (seq_o true) false (rawtoks_of d) TermEOF = Ok m /\
+              seq_encode (seq_o true) m = Panic /\ seq_encode_indent (seq_o true) m = Panic.
+Proof.
+  exists witness_text_before_child. split; [vm_compute; reflexivity|].
+  eexists. split; [vm_compute; reflexivity|]. split; vm_compute; reflexivity.
+Qed.
+
+(* on the proved sub-domain the encoder does not panic and does not fail *)
+Lemma encode_total_alone pf skip e d :
+  dom04_alone (seq_o e) d = true ->
+  exists m, seq_decode pf skip (seq_o e) false (rawtoks_of d) TermEOF = Ok m /\
+            seq_encode (seq_o e) m <> Panic /\ seq_encode_indent (seq_o e) m <> Panic.
+Proof.
+  intros H. destruct (roundtrip_alone pf skip e d H) as (m & its & Hd & E1 & E2 & _).
+  exists m. split; [exact Hd|]. rewrite E1, E2. split; discriminate.
+Qed.
+
+(* a non-trivial document of the domain: prefixed names, xmlns attributes, interleaved siblings a,b,a,
+   a comment, a directive and a PI between them, values with specials *)
+Definition xnp (p x : string) : xname := {| xspace := s p; xlocal := s x |}.
+Definition xa (n : xname) (v : string) : xattr := {| aname := n; avalue := s v |}.
+Definition example_doc : node :=
+  NElem (xnp "ns" "doc") [xa (xnp "xmlns" "ns") "urn:x"; xa (xn "id") "<&>"; xa (xnp "ns" "k") "it's"] []
+    [ NElem (xn "a") [] (s " one ") [];
+      NComment (s " note ");
+      NElem (xn "b") [xa (xn "z") "1"; xa (xn "a") "2"] [] [];
+      NProcInst (s "pi") (s "data");
+      NElem (xn "a") [] (s "a<b") [];
+      NDirective (s "D x");
+      NElem (xnp "ns" "c") [] [] [NElem (xn "a") [] [] []; NElem (xn "b") [] (s "q""q") []] ].
